@@ -86,8 +86,30 @@ def pattern_atoms(el, pos, q0=0.5, g0=50):
     return Atoms(elements=list(el), positions=np.asarray(pos, float) + OFF, charges=[q0 + 0.125 * i for i in range(len(el))], groups=[g0 + i for i in range(len(el))])
 
 
+GROWN = 'grown (shared core + 2 atoms)'
+
+
+def scale_case(sc, ctx):
+    """cases beyond the small bound: sc['scale'] = 'sheet' (31-atom chiral pattern, a proper and a mirror-image copy),
+    'large' (more than 2^15 atoms, C-O-H copies stored late / split around the filler)"""
+    if sc['scale'] == 'sheet':
+        cell = G.SHEET_CELLS[sc['variant']]
+        pel, pp = G.sheet_pattern(height=sc['height'])
+        el, pos, proper, mirror = G.sheet_structure(cell, G.generic_rotations(ctx['seed'], 3)[1], (0.5, 0.5, 0.5), (0.02, 0.97, 0.01), height=sc['height'])
+        planted = [proper]; cellname = 'sheet cell %d' % sc['variant']
+    else:
+        cell, pos, el, pp, pel, planted = G.large_case(sc['variant']); cellname = 'cubic 64, %d atoms' % len(el)
+    pel = list(pel); pp = np.asarray(pp, float)
+    spec = dict(el=list(el), pos=np.asarray(pos), pp=pp, pel=pel, planted=planted)
+    s = payload(spec, cell, ctx['seed'])
+    rel = pel + ['F', 'He']; rp = np.vstack([pp, pp[-1] + [0.4, 0.9, 1.1], pp[0] + [-1.2, 0.3, -0.8]])
+    return dict(s=s, sp=pattern_atoms(pel, pp, q0=-0.7, g0=90), rp=pattern_atoms(rel, rp), spec=spec, cell=cell, pel=pel, pp=pp, rel=rel, rpos=rp, pair=GROWN, cellname=cellname)
+
+
 def build_case(sc, ctx):
     """sc: cell, pat, subpose, ncopies, pair, place (first anchor index into PLACEMENTS) ..."""
+    if 'scale' in sc:
+        return scale_case(sc, ctx)
     cell = G.CELLS[sc['cell']][1]
     sp_ = sub_poses(ctx['seed'])
     rot = sp_[sc['subpose']]
@@ -100,7 +122,11 @@ def build_case(sc, ctx):
     name, rel, rp = pairs(sc['pat'])[sc['pair']]
     sp = pattern_atoms(pel, pp, q0=-0.7, g0=90)
     rpat = pattern_atoms(rel, rp)
-    return dict(s=s, sp=sp, rp=rpat, spec=spec, cell=cell, pel=pel, pp=pp, rel=list(rel), rpos=np.asarray(rp, float), pair=name)
+    if sc.get('frame'):      # both patterns written in a coordinate frame far from the origin
+        sp.positions = sp.positions + np.array(sc['frame'], float)
+        if len(rel):
+            rpat.positions = rpat.positions + np.array(sc['frame'], float)
+    return dict(s=s, sp=sp, rp=rpat, spec=spec, cell=cell, pel=pel, pp=pp, rel=list(rel), rpos=np.asarray(rp, float), pair=name, cellname=G.CELLS[sc['cell']][0])
 
 
 def replace_executions(c, sc, ctx, bound, **kw):
